@@ -332,15 +332,15 @@ impl ResourceStorage {
 //@ RET r
 //@ SAFETY C18.scriptlet.safety
 //@ SPEC
-    requires
-        // "guaranteed valid at filter parsing": the argument list parses
-        parse_args_spec(scriptlet_args@) is Some,
+    // (no precondition: the comment "guaranteed valid at filter parsing" holds for rules that came through the parser, not for the
+    // argument text of a deserialized engine - fix ed0ea80; an argument list that does not parse is an error like the others)
     ensures
+        parse_args_spec(scriptlet_args@) is None ==> r is Err, // OBL C10.scriptlet.malformed_args_is_error
         final(required_deps)@.len() >= old(required_deps)@.len() && final(required_deps)@.subrange(0, old(required_deps)@.len() as int) =~= old(required_deps)@, // OBL C18.scriptlet.frame
         // every resource this call adds to the page's dependency list was granted to the requesting list
         forall|i: int| old(required_deps)@.len() <= i < final(required_deps)@.len() ==> perm_subset((#[trigger] final(required_deps)@[i]).permission, filter_permission), // OBL C18.scriptlet.deps_granted
         // an injection is produced only for a loaded, granted, injectable resource
-        r is Ok ==> parse_args_spec(scriptlet_args@)->Some_0.len() > 0 && ({
+        r is Ok ==> parse_args_spec(scriptlet_args@) is Some && parse_args_spec(scriptlet_args@)->Some_0.len() > 0 && ({
             let name = js_ext_spec(parse_args_spec(scriptlet_args@)->Some_0[0]@);
             internal_spec(*self, name) is Some && perm_subset(internal_spec(*self, name)->Some_0.permission, filter_permission)
                 && injectable_kind(internal_spec(*self, name)->Some_0.kind)
